@@ -350,6 +350,63 @@ def _shared(ctx, counts) -> list:
     return [r09_3(ctx, counts), r09_6(ctx, counts)]
 
 
+def r17_7(ctx, counts) -> RuleResult:
+    """NaN / Infinity are rejected by the JSON parsers unless liberal"""
+    from ..engine.cfg import CFG
+    from ..engine.dataflow import branch_facts
+    model: Model = ctx.model
+    res = RuleResult(
+        'R17.7', 'JSON-CONSTANTS-STRICT',
+        'Python\'s json module accepts NaN, Infinity and -Infinity unless a parse_constant hook '
+        'rejects them; RFC 7159 (the grammar of fn:parse-json and fn:json-to-xml) does not. In '
+        'every function that builds a json.JSONDecoder / calls json.loads, a raising '
+        'parse_constant hook is installed on every path on which the `liberal` option is not '
+        'established true: the statement that installs it is unconditional or under the fact '
+        '`not liberal`, never under `liberal`. (The test was inverted: parse-json("NaN") '
+        'returned NaN and parse-json("NaN", map{"liberal": true()}) raised.)')
+    n = 0
+    for f in sorted(model.all_functions(), key=lambda q: q.key):
+        uses = [c for c in walk_local(f.node) if isinstance(c, ast.Call)
+                and dotted(c.func) in ('json.JSONDecoder', 'json.loads', 'json.load')]
+        if not uses:
+            continue
+        cfg = CFG(f.node)
+        facts = branch_facts(cfg)
+        installs = [nd for nd in cfg.nodes if nd.kind == 'stmt' and isinstance(nd.ast, ast.Assign)
+                    and any(isinstance(t, ast.Subscript) and isinstance(t.slice, ast.Constant)
+                            and t.slice.value == 'parse_constant' for t in nd.ast.targets)]
+        kw = [c for c in uses if any(k.arg == 'parse_constant' for k in c.keywords)]
+        n += 1
+        if kw:
+            res.instances.append(f'{f.key}: parse_constant passed as a keyword')
+            res.ok()
+            continue
+        if not installs:
+            res.instances.append(f'{f.key}: no parse_constant hook')
+            res.fail(finding('R17.7', f, uses[0], 'no parse_constant hook',
+                             f'`{stmt_text(uses[0])[:50]}` parses JSON without a parse_constant '
+                             f'hook: NaN / Infinity are accepted as numbers'))
+            continue
+        for nd in installs:
+            fs = facts[nd.id]
+            pos = [fa for fa in fs if fa.startswith('+') and 'liberal' in fa and ' or ' not in fa]
+            ok = not pos
+            res.instances.append(f'{f.key}: L{nd.ast.lineno} hook installed under '
+                                 f'{sorted(x for x in fs if "liberal" in x)}: strict by '
+                                 f'default: {ok}')
+            if ok:
+                res.ok()
+            else:
+                res.fail(finding('R17.7', f, nd.ast, 'parse_constant only when liberal',
+                                 f'the hook that rejects NaN / Infinity is installed only under '
+                                 f'{pos[0]}: without the liberal option the non-JSON constants '
+                                 f'are accepted, with it they are rejected'))
+    counts['json_parsers'] = n
+    if n < 2:
+        raise AnalysisError(f'functions that parse JSON located: {n} < 2')
+    return res
+
+
 def run(ctx) -> dict:
     counts: dict[str, int] = {}
 
@@ -377,7 +434,7 @@ def run(ctx) -> dict:
     state = r19_5(ctx, counts, lambda f: f.module.name == 'elementpath.serialization', 0)
     return {
         'results': [r1, r17_2(ctx, counts), r17_3(ctx, counts), r17_4(ctx, counts), r17_5(ctx, counts),
-                    r17_6(ctx, counts), pure, state]
+                    r17_6(ctx, counts), r17_7(ctx, counts), pure, state]
         + _shared(ctx, counts),
         'counts': counts,
         'explanation':
